@@ -15,6 +15,10 @@ CHECKS = [
   'technique': 'operation histories over body streams (exhaustive <=3 ops + Hypothesis) vs prefix/budget/position invariants over a reference cursor; instrumented wsgi.input and scripted ASGI receive',
   'text': 'All histories of <=3 operations (12-op WSGI alphabet, 10-op ASGI alphabet) over newline-rich bodies / event scripts and every Content-Length regime (absent, exact, shorter, longer) plus tens of thousands of random longer histories are run on the real BoundedStream objects obtained from falcon.Request / falcon.asgi.Request; after every step: bytes returned are a prefix of the declared body, sized reads within size, no end-of-stream report before the whole body, wsgi.input never read past Content-Length nor with unbounded size, ASGI receive never awaited after the terminal event, tell()/eof consistent. Bounded-exhaustive + random exploration.',
   'note': 'trusts the invariants in vf/checks/c07_streams.py and the fake server streams; negative sizes other than -1 and undocumented read/iterate mixes are outside the domain; known finding F21 excluded by a narrow predicate'},
+ {'id': 'C01',
+  'technique': 'model-based add/find histories vs reference DFS walk over the accepted template texts; metamorphic twin (accepted adds only, opposite compile flags); rejected-add no-op probe on a fresh router',
+  'text': 'Random histories of add_route (accepted and rejected templates from a colliding vocabulary: literals incl. quote/backslash, simple, converter, multi-field and path fields; compile flag on/off) interleaved with lookups, then every path over the segment representatives of the accepted set, are compared with an independent recursive DFS reference (route template, resource identity, typed params); the same lookups run on a twin router built from the accepted adds only with opposite compile flags, and every rejected add is re-tried on a fresh router. Plus an exhaustive family of ordered selections from a 14-template pool. Exploration, not proof.',
+  'note': 'trusts the reference walk in vf/checks/c01_router.py (greedy re semantics for multi-field segments, re-implemented int/uuid converter semantics); converter args containing } not generated'},
 ]
 _claimed = {c['id'] for c in CHECKS}
 NOT_APPLICABLE = [{'property_id': p, 'reason': 'check not built yet (work in progress; the technique applies, see DESIGN.md)'} for p in _ALL if p not in _claimed]
